@@ -1,6 +1,7 @@
 package main
 
 import (
+	"sort"
 	"context"
 	"fmt"
 	"os"
@@ -929,6 +930,97 @@ func runC16(c *Ctx) {
 			c.Violation("", p, replay)
 		}
 		c.DistinctCase(fmt.Sprint("prer", i))
+	}
+	// one Handler value given to several monitors — a monitor closed and
+	// re-created with the handler built at start-up, and the same handler on a
+	// second publisher: every monitor initialises it with its own content and
+	// then delivers its own events
+	for i := 0; i < 3; i++ {
+		var problems []string
+		what := "one handler value used by a restarted monitor and by a monitor on a second publisher"
+		c.Now(what)
+		dl := sched.Bubble(c.T, func() {
+			ctx, cancel := context.WithCancel(context.Background())
+			defer cancel()
+			pert := sched.NewPerturb(c.Seed+int64(i), i%3)
+			srcA := kcache.NewVerifSource(ctx, pert.Log(), (&Filt{Tag: FNull}).Go())
+			srcB := kcache.NewVerifSource(ctx, pert.Log(), (&Filt{Tag: FNull}).Go())
+			oA := &Obj{ID: 1, Kind: KPod, NS: 1, NM: 1, RV: "1", Spec: SPod}
+			oB := &Obj{ID: 2, Kind: KPod, NS: 2, NM: 2, RV: "1", Spec: SPod}
+			oC := &Obj{ID: 3, Kind: KPod, NS: 1, NM: 3, RV: "2", Spec: SPod}
+			srcA.CacheActor().Update(kcache.NewEvent(kcache.EventTypeCreate, oA.Go()))
+			srcB.CacheActor().Update(kcache.NewEvent(kcache.EventTypeCreate, oB.Go()))
+			srcA.MakeReady()
+			srcB.MakeReady()
+			var mu sync.Mutex
+			var log []string
+			rec := func(s string) { mu.Lock(); log = append(log, s); mu.Unlock() }
+			h := kcache.BuildHandler().
+				OnInitialize(func(objs []metav1.Object) {
+					ids := []int{}
+					for _, o := range objs {
+						ids = append(ids, ID(o))
+					}
+					sort.Ints(ids)
+					rec(fmt.Sprint("init", ids))
+				}).
+				OnCreate(func(o metav1.Object) { rec(fmt.Sprint("create", ID(o))) }).
+				OnUpdate(func(o metav1.Object) { rec(fmt.Sprint("update", ID(o))) }).
+				OnDelete(func(o metav1.Object) { rec(fmt.Sprint("delete", ID(o))) }).Create()
+			expect := func(stage string, want ...string) {
+				pert.Barrier()
+				mu.Lock()
+				got := append([]string(nil), log...)
+				mu.Unlock()
+				if fmt.Sprint(got) != fmt.Sprint(want) {
+					problems = append(problems, fmt.Sprintf("%s: the handler was called %v, expected %v", stage, got, want))
+				}
+			}
+			m1, err := kcache.NewMonitor(srcA, h)
+			if err != nil {
+				problems = append(problems, "NewMonitor failed")
+				return
+			}
+			expect("first monitor", "init[1]")
+			m1.Close()
+			pert.Barrier()
+			srcA.CacheActor().Update(kcache.NewEvent(kcache.EventTypeCreate, oC.Go()))
+			srcA.Send(kcache.NewEvent(kcache.EventTypeCreate, oC.Go()))
+			pert.Barrier()
+			m2, err := kcache.NewMonitor(srcA, h)
+			if err != nil {
+				problems = append(problems, "NewMonitor (restart) failed")
+				return
+			}
+			expect("monitor re-created with the same handler", "init[1]", "init[1 3]")
+			m3, err := kcache.NewMonitor(srcB, h)
+			if err != nil {
+				problems = append(problems, "NewMonitor on a second publisher failed")
+				return
+			}
+			expect("the same handler on a second publisher", "init[1]", "init[1 3]", "init[2]")
+			srcB.Send(kcache.NewEvent(kcache.EventTypeUpdate, oB.Go()))
+			expect("an event of the second publisher", "init[1]", "init[1 3]", "init[2]", "update2")
+			m2.Close()
+			m3.Close()
+			srcA.Stop()
+			srcB.Stop()
+			pert.SetLevel(0)
+			sched.Settle()
+			cancel()
+			sched.Settle()
+		})
+		runs++
+		c.Rep.Evaluations++
+		replay := map[string]interface{}{"scenario": what, "attempt": i}
+		if dl != "" {
+			replay["deadlock"] = dl
+			c.Violation("", "hang (bubble deadlock): "+what, replay)
+		}
+		for _, p := range problems {
+			c.Violation("", p+" ["+what+"]", replay)
+		}
+		c.DistinctCase(fmt.Sprint("shared-handler", i))
 	}
 	// the source shuts down (or only its cache stops) before readiness is
 	// signalled: no callback at all, or OnInitialize with what the cache held
